@@ -1,6 +1,7 @@
 CONSTANTS
   V = {"init_rev"}
   MaxN = 3
+  Vary = FALSE
 SPECIFICATION Spec
 INVARIANTS TypeOK Nested
 CHECK_DEADLOCK FALSE
